@@ -3,7 +3,7 @@
    env_upper / env_lower / fill_line / decreasing_line / adjust_cases are the code-faithful models (model/Cdf.v) of
    cdf_envelope, fill_cdf, decreasing_cdfs and adjust_fcst_for_crps on one line (= one forecast case along the
    threshold dimension).  upperQ / lowerQ are the same computations on NaN-free rational lines; fin_of drops NaN. *)
-From V Require Import lib.Tree model.Cdf proofs.C17 proofs.C17_tools.
+From V Require Import lib.Tree model.Cdf proofs.C17 proofs.C17_tools gen.Gen_C17_plumb proofs.C17_code.
 Open Scope Q_scope.
 
 (* ---- cdf_envelope: NaN-free lines ---- *)
@@ -204,3 +204,21 @@ Example C17_round_nonvacuous :
   round_values_m (1 # 5) false (XFin (373 # 100)) = XFin (round_to (1#5) (373#100)) /\ round_to (1 # 5) (373 # 100) == 19 # 5 /\
   round_to 20 (373 # 10) == 40 /\ round_half_even (5 # 2) = 2%Z /\ round_half_even (7 # 2) = 4%Z.
 Proof. repeat split; vm_compute; reflexivity. Qed.
+
+(* ---- adjust_fcst_for_crps ranks the candidates with the caller's own CRPS options: the arguments of its single crps_cdf
+   call, read off crps_impl.py on every run (translator site C17.fwd; crps_options = threshold_dim, additional_thresholds,
+   fcst_fill_method, integration_method) ---- *)
+Theorem C17_code_adjust_forwards_every_crps_option : forall k, In k crps_options ->
+  In k gen_adjust_crps_call_formals /\ In (k, k) gen_adjust_crps_call_keywords.
+Proof. exact adjust_forwards_every_crps_option. Qed.
+Print Assumptions C17_code_adjust_forwards_every_crps_option.
+
+Theorem C17_code_adjust_passes_nothing_else : forall k v, In (k, v) gen_adjust_crps_call_keywords ->
+  (In k crps_options /\ v = k) \/ (k = "preserve_dims"%string /\ v = "crps_dims"%string).
+Proof. exact adjust_passes_nothing_else. Qed.
+Print Assumptions C17_code_adjust_passes_nothing_else.
+
+Theorem C17_code_adjust_scores_candidates_against_obs :
+  gen_adjust_crps_call_positional = ["fcst_env"%string; "obs"%string].
+Proof. exact adjust_scores_candidates_against_obs. Qed.
+Print Assumptions C17_code_adjust_scores_candidates_against_obs.
